@@ -391,11 +391,13 @@ def _add_probes(fn, word):
 ROLES = ['assigned_only', 'assigned_only_in_loop', 'read_only_global', 'parameter', 'local', 'global_var', 'closure_free_var',
          'closure_nonlocal', 'nested_function_called', 'nested_function_uncalled', 'loop_target_read', 'loop_target_unread',
          'nested_parameter', 'lambda_parameter', 'comprehension_target', 'nonlocal_in_nested', 'with_target', 'import_alias',
-         'function_name', 'late_global', 'loop_var_modified']
+         'function_name', 'late_global', 'loop_var_modified', 'two_locals_numbered', 'local_in_nested_def_loop',
+         'attribute_name', 'keyword_name']
 
 # roles in which the word is read in the function's own blocks: the hypothesis of C11_disjoint_partial holds for it
 READ_ROLES = {'read_only_global', 'parameter', 'local', 'global_var', 'closure_free_var', 'closure_nonlocal',
-              'nested_function_called', 'loop_target_read', 'loop_var_modified'}
+              'nested_function_called', 'loop_target_read', 'loop_var_modified', 'two_locals_numbered',
+              'local_in_nested_def_loop', 'attribute_name', 'keyword_name'}
 
 
 def make_variant(prog_json, role, word, rng):
@@ -467,6 +469,27 @@ def make_variant(prog_json, role, word, rng):
     elif role == 'loop_var_modified':
         # a variable assigned before a loop/branch, modified inside it and read afterwards (a block variable of the lowered construct)
         ok = _insert(fn, _stmt("%s = 0\nfor kq_i in range(3):\n    if kq_i == 1:\n        %s = %s + kq_i\ntr('lv', %s)" % (word, word, word, word)), rng)
+    elif role == 'two_locals_numbered':
+        # the word AND its first numbered variant are user variables (read and written): the namer must skip both
+        cands = [v for v in locals_ if v not in params]
+        w2 = word + '_1'
+        if len(cands) < 2 or w2 in used:
+            return None
+        i1 = rng.randrange(len(cands))
+        i2 = (i1 + 1 + rng.randrange(len(cands) - 1)) % len(cands)
+        _Rename(cands[i1], word).visit(fn)
+        _Rename(cands[i2], w2).visit(fn)
+        probe = True
+    elif role == 'local_in_nested_def_loop':
+        # requests issued inside a nested function: the reserved chain goes through that function's own scope
+        ok = _insert(fn, _stmt("def kq_h(kq_p):\n    %s = kq_p\n    for kq_i in range(4):\n        if kq_i > %s:\n            break\n"
+                               "        if kq_i == 0:\n            continue\n        %s = %s + 1\n    return %s\ntr('nh', kq_h(1))"
+                               % (word, word, word, word, word)), rng)
+    elif role == 'attribute_name':
+        ok = _insert(fn, _stmt("kq_c = cm(5)\nkq_c.%s = 3\nfor kq_i in range(2):\n    if kq_i > 0:\n        break\n    kq_c.%s += 1\ntr('an', kq_c.%s)"
+                               % (word, word, word)), rng)
+    elif role == 'keyword_name':
+        ok = _insert(fn, _stmt("tr('kw', dict(%s=2)['%s'])" % (word, word)), rng)
     elif role == 'nested_parameter':
         ok = _insert(fn, _stmt("def kq_g(%s):\n    return tr('np', %s)\ntr('npc', kq_g(3))" % (word, word)), rng)
     elif role == 'lambda_parameter':
